@@ -14,6 +14,8 @@ type C04Case struct {
 	FlowCase
 	Kind     string `json:"kind"` // matching | scoring
 	ArgLimit int    `json:"arg_limit,omitempty"`
+	// FirstValue: rules compare against %{COLLECTION.key}, the first value stored under a (repeated) name
+	FirstValue bool `json:"first_value_readers,omitempty"`
 }
 
 func genC04(t *rapid.T) *C04Case {
@@ -55,6 +57,20 @@ func genC04(t *rapid.T) *C04Case {
 			}
 			c.RS.Items = append(c.RS.Items, Item{Rule: r})
 		}
+	}
+	if rapid.Bool().Draw(t, "firstvalue") {
+		// rules whose firing depends on WHICH value of a repeated (or case-variant) name comes first: a macro
+		// naming a collection key expands to the first value stored under it
+		id := 950
+		for i, n := 0, rapid.IntRange(1, 3).Draw(t, "nfirst"); i < n; i++ {
+			id++
+			coll := rapid.SampledFrom([]string{"ARGS_GET", "ARGS", "ARGS_POST", "REQUEST_COOKIES", "REQUEST_HEADERS"}).Draw(t, "fcoll")
+			key := rapid.SampledFrom([]string{"a", "b", "A", "c", "h"}).Draw(t, "fkey")
+			c.RS.Items = append(c.RS.Items, Item{Rule: &Rule{ID: id, Phase: 2, Disr: "pass",
+				Targets: []Target{{Var: rapid.SampledFrom([]string{"ARGS_GET", "ARGS", "REQUEST_URI"}).Draw(t, "ftarget")}},
+				Op:      rapid.SampledFrom([]string{"streq", "contains", "beginsWith"}).Draw(t, "fop"), Arg: fmt.Sprintf("%%{%s.%s}", coll, key)}})
+		}
+		c.FirstValue = true
 	}
 	if rapid.IntRange(0, 5).Draw(t, "arglimit") == 0 {
 		c.ArgLimit = rapid.IntRange(1, 3).Draw(t, "limit")
@@ -137,6 +153,9 @@ func checkC04(c *C04Case) Result {
 	statExtra("transactions", fresh+reused)
 	// labels
 	res.Labels = append(res.Labels, "kind:"+c.Kind)
+	if c.FirstValue {
+		res.Labels = append(res.Labels, "first-value-readers")
+	}
 	hasTrans := false
 	for _, r := range c.RS.Rules() {
 		if len(r.Trans) > 0 {
